@@ -66,7 +66,7 @@ const (
 // stats of one scenario, for the non-triviality rules and labels
 type stats struct {
 	staleOnExisting, equalTSReplace, deleteMatched, deleteAtStoredTS, futureRejected, futureAccepted bool
-	hugeThreshold, legacyValue                                                                      bool
+	hugeThreshold, legacyValue, starLiteral                                                         bool
 	sharedPrefixMultiDelete, multiMixed, plainOverAtomic, atomicOverPlain, suppressedSeen            bool
 	resetWide, removeWide, connErrThenConnect, emptyNoti, acceptedSeen, collideSeen                  bool
 	ambiguous, latestChecked, metaDeleted, readd, elementEnc, keyed                                  bool
@@ -92,6 +92,7 @@ func (s *stats) labels() []string {
 	add(s.futureRejected, "future-rejected")
 	add(s.futureAccepted, "future-beyond-clock-accepted-by-latest")
 	add(s.legacyValue, "value-in-the-deprecated-value-field")
+	add(s.starLiteral, "update-path-with-an-element-or-key-value-that-is-literally-a-star")
 	add(s.hugeThreshold, "future-threshold-near-the-int64-range(never-reject)")
 	add(s.sharedPrefixMultiDelete, "delete-2plus-through-shared-prefix")
 	add(s.multiMixed, "multi-mixed-accept-reject")
@@ -867,6 +868,14 @@ func (w *world) stepNoti(i int, name string, spec *Noti) {
 		for _, e := range u.Path {
 			if len(e.Keys) > 0 {
 				w.st.keyed = true
+			}
+			if e.Name == "*" {
+				w.st.starLiteral = true
+			}
+			for _, kv := range e.Keys {
+				if kv == "*" {
+					w.st.starLiteral = true
+				}
 			}
 		}
 	}
